@@ -97,7 +97,19 @@ class Cached:
         self.events = cmakegen.close(events)
         self.text = cmakegen.render(cmakegen.items(self.events, case))
         self.path = pipeline.write_tmp(self.text)
-        self.tree, _ = pipeline.parse_tree(self.text)
+        self.tree = None
+        try:
+            # the cached-tree shortcut relies on Documenter internals (parser.cmake_file); it is used only if it is
+            # observably equivalent to a fresh Documenter on this module, otherwise every configuration parses afresh
+            tree, _ = pipeline.parse_tree(self.text)
+            self.tree = tree
+            dflt = dict.fromkeys(FLAGS, True)
+            cached = self.page(dflt)
+            self.tree = None
+            fresh = self.page(dflt)
+            self.tree = tree if cached == fresh else None
+        except Exception:
+            self.tree = None
 
     def page(self, cfg, agg_class=None):
         from cminx.documenter import Documenter
@@ -109,7 +121,8 @@ class Cached:
         try:
             with common.quiet():
                 d = Documenter(self.path, "Title", "mod", s)
-                d.parser.cmake_file = lambda: self.tree
+                if self.tree is not None:
+                    d.parser.cmake_file = lambda: self.tree
                 return d.process().to_text()
         finally:
             dm.DocumentationAggregator = saved
